@@ -846,6 +846,18 @@ func playFile(events []fileEvent, m *module, lists [][]any) (string, bool) {
 				return err.Error(), true
 			}
 			want = nil
+		case 8: // the first byte of the file is overwritten so that the content is undecodable: an error is logged, the rules in force stay
+			// (in place, one write, no truncation: a truncate-then-write would legitimately show the watcher an empty file first)
+			f, err := os.OpenFile(path, os.O_WRONLY, 0)
+			if err != nil {
+				return err.Error(), true
+			}
+			_, err = f.WriteAt([]byte("X"), 0)
+			f.Close()
+			if err != nil {
+				return err.Error(), true
+			}
+			time.Sleep(150 * time.Millisecond) // (nothing observable is expected to change: give the watcher time to react)
 		case 4, 5: // the file is renamed away and a new file is put in its place (list A / list B)
 			l := lists[1+ev.kind-4]
 			if err := os.Rename(path, path+fmt.Sprint(".old", i)); err != nil {
@@ -875,10 +887,10 @@ func playFile(events []fileEvent, m *module, lists [][]any) (string, bool) {
 	return "", false
 }
 
-var eventKinds = []int{0, 1, 0, 1, 2, 3, 4, 5}
+var eventKinds = []int{0, 1, 0, 1, 2, 3, 4, 5, 8, 8}
 
 func TestFileDatasource(t *testing.T) {
-	hx.Check(t, hx.N{Quick: 20, Thorough: 40}, func(t *rapid.T, c *hx.Case) {
+	hx.Check(t, hx.N{Quick: 40, Thorough: 80}, func(t *rapid.T, c *hx.Case) {
 		hx.Install()
 		util.SetClock(util.NewRealClock()) // the watcher loop sleeps and retries on the library clock
 		defer util.SetClock(hx.C)
@@ -893,7 +905,11 @@ func TestFileDatasource(t *testing.T) {
 		var events []fileEvent
 		ne := rapid.IntRange(1, 5).Draw(t, "events")
 		for i := 0; i < ne; i++ {
-			events = append(events, fileEvent{rapid.SampledFrom(eventKinds).Draw(t, "event")})
+			k := rapid.SampledFrom(eventKinds).Draw(t, "event")
+			if len(events) > 0 && events[len(events)-1].kind == 8 && rapid.Bool().Draw(t, "removeAfterUndecodable") {
+				k = 3 // the file is removed while its last content could not be decoded: the rules in force must still be cleared
+			}
+			events = append(events, fileEvent{k})
 		}
 		c.Op("module=%s events=%v", m.name, events)
 		var msg string
